@@ -76,8 +76,20 @@ impl WalIndex {
             )
         })?;
 
+        #[cfg(walrus_verif)]
+        if crate::wal::verif::io_event("idx_write", &tmp_path, 0, bytes.len() as u64) == crate::wal::verif::IoDecision::Fail {
+            return Err(crate::wal::verif::injected_error());
+        }
         fs::write(&tmp_path, &bytes)?;
+        #[cfg(walrus_verif)]
+        if crate::wal::verif::io_event("idx_sync", &tmp_path, 0, 0) == crate::wal::verif::IoDecision::Fail {
+            return Err(crate::wal::verif::injected_error());
+        }
         fs::File::open(&tmp_path)?.sync_all()?;
+        #[cfg(walrus_verif)]
+        if crate::wal::verif::io_event("idx_rename", &self.path, 0, 0) == crate::wal::verif::IoDecision::Fail {
+            return Err(crate::wal::verif::injected_error());
+        }
         fs::rename(&tmp_path, &self.path)?;
         Ok(())
     }
